@@ -1435,6 +1435,7 @@ func (d *Data) storeAndUpdate(ctx *datastore.VersionedCtx, keyStr string, newDat
 		origFields = append(origFields, field)
 	}
 	updateJSON(origData, newData, ctx.User, conditionals, replace)
+	dvid.VerifYield("neuronjson.storeAndUpdate")
 	newJSON, _ := json.Marshal(newData)
 	dvid.Infof("neuronjson %s put by user %q, conditionals %v, replace %t:\nOrig: %s\n Rcv: %s\n New: %s\n",
 		d.DataName(), ctx.User, conditionals, replace, origJSON, rcvJSON, newJSON)
